@@ -482,6 +482,22 @@ def gen_import_arms(man):
     with open(os.path.join(SRC, "core.yl")) as fh:
         core = fh.read()
     info["core_class_names"] = re.findall(r"^class\s+([A-Za-z_]\w*)", core, re.M)
+    # round 9: census of the import path - every `self.<name>` that start_import_impl / finish_import_impl /
+    # init_built_in_globals mention (fields read or written, methods called) and the number of `error!(` / `try_handle_error(` /
+    # `return` sites of start_import_impl.  Modules.v has no state beyond registry, objects, frames, handlers and `active`: a new
+    # counter, cache or flag consulted by an import, a new refusal arm, a look into another module's globals while a module is
+    # given its built-ins - each one changes this table.
+    census, exits = [], []
+    for f in ("start_import_impl", "finish_import_impl", "init_built_in_globals"):
+        fo, fc = fn_body(vm, f)
+        t = texts(vm, fo, fc)
+        census.append((f, sorted({t[i + 2] for i in range(len(t) - 2) if t[i] == "self" and t[i + 1] == "."})))
+        if f == "start_import_impl":
+            exits = [str(sum(1 for i in range(len(t) - 1) if t[i] == "error!" and t[i + 1] == "(")),
+                     str(sum(1 for i in range(len(t) - 1) if t[i] == "try_handle_error" and t[i + 1] == "(")),
+                     str(t.count("return"))]
+    info["import_census"] = [[f, n] for f, n in census]
+    info["import_exit_counts"] = exits
     man["c14"] = info
 
     b = lambda v: "true" if v else "false"
@@ -532,6 +548,9 @@ def gen_import_arms(man):
     L.append("Definition gen_default_module_path : string := %s." % coq_str(info["default_module_path"]))
     L.append("Definition gen_lambda_name_fmt : string := %s." % coq_str(info["lambda_name_fmt"]))
     L.append("Definition gen_only_script_has_empty_name : bool := %s." % b(info["only_script_has_empty_name"]))
+    L.append("Definition gen_import_census : list (string * list string) := [%s]."
+             % "; ".join("(%s, %s)" % (coq_str(k), coq_list(v)) for k, v in info["import_census"]))
+    L.append("Definition gen_import_exit_counts : list string := %s." % coq_list(info["import_exit_counts"]))
     return "\n".join(L) + "\n"
 
 
